@@ -87,6 +87,23 @@ where
         shard.find(hash, |p| key.equivalent(p.key())).cloned()
     }
 
+    /// Remove the piece of the key from the write queue index, if there is any.
+    pub fn remove<Q>(&self, hash: u64, key: &Q)
+    where
+        Q: Hash + equivalent::Equivalent<K> + ?Sized,
+    {
+        let shard = self.shard(hash);
+        let removed = {
+            let mut shard = shard.write();
+            match shard.entry(hash, |p| key.equivalent(p.key()), |p| p.hash()) {
+                HashTableEntry::Occupied(o) => Some(o.remove().0),
+                HashTableEntry::Vacant(_) => None,
+            }
+        };
+        // Deallocate out of the lock critical section.
+        drop(removed);
+    }
+
     fn shard(&self, hash: u64) -> Arc<RwLock<Shard<K, V, P>>> {
         let index = (hash as usize) % self.inner.shards.len();
         self.inner.shards[index].clone()
